@@ -118,11 +118,11 @@ def unique(run, F):
     fn = F.one('MapValidBasic::vsorted_unique_idx')
     cls = [x for x in walk(fn.hir) if x.get('k') == 'Closure' and len(x['params']) == 1 and
            x['params'][0].get('k') == 'Tuple']
-    want_first = T((['VALID(v)', '!(Some(v) == last_value)'], 'Some(i)', ['last_value = Some(v)']),
+    want_first = T((['VALID(v)', '(Some(v) != last_value)'], 'Some(i)', ['last_value = Some(v)']),
                    (['VALID(v)', '(Some(v) == last_value)'], 'NULL', []),
                    (['!VALID(v)'], 'NULL', []))
     OUT = 'out := if VALID(last_value) { Some(i) } else { NULL }'
-    want_last = T((['VALID(v)', '!(Some(v) == last_value)'], 'out', [OUT, 'last_value = Some(v)']),
+    want_last = T((['VALID(v)', '(Some(v) != last_value)'], 'out', [OUT, 'last_value = Some(v)']),
                   (['VALID(v)', '(Some(v) == last_value)'], 'NULL', []),
                   (['!VALID(v)'], 'out', [OUT, 'last_value = NULL']))
     run.ob('UNQ.table', fn, 'two index closures', len(cls) == 2, fn.loc(), '%d' % len(cls))
@@ -150,7 +150,7 @@ def unique(run, F):
     fn = F.one('MapValidBasic::vsorted_unique')
     cls = [x for x in walk(fn.hir) if x.get('k') == 'Closure']
     want = T((['VALID(v)', 'VALID(value)', '(v != value)'], 'Some(IsNone::from_inner(v))', ['value = Some(v)']),
-             (['VALID(v)', 'VALID(value)', '!(v != value)'], 'NULL', []),
+             (['VALID(v)', 'VALID(value)', '(v == value)'], 'NULL', []),
              (['VALID(v)', '!VALID(value)'], 'Some(IsNone::from_inner(v))', ['value = Some(v)']),
              (['!VALID(v)'], 'NULL', []))
     if cls:
